@@ -168,6 +168,18 @@ Theorem C01_expired_members_leave :
 Proof. exact timers_end_expired. Qed.
 Print Assumptions C01_expired_members_leave.
 
+(* an environment fault: if the random source fails while a session request is served, no code comes into
+   existence (not the all-zero one either), nobody joins, and the answer carries no code - in every reachable state *)
+Theorem C01_entropy_failure_mints_nothing :
+  forall cfg t ops r,
+    let s := reach cfg t ops in
+    let s' := fst (step cfg s (OFaultedReq r)) in
+    (forall k e, lookup N.eqb k (codes s') = Some e -> lookup N.eqb k (codes s) = Some e) /\
+    (forall m, In m (hub s') -> In m (hub s)) /\
+    (forall st k, snd (step cfg s (OFaultedReq r)) <> OutResp (Resp st (BUri k))).
+Proof. exact faulted_mints_nothing. Qed.
+Print Assumptions C01_entropy_failure_mints_nothing.
+
 (* non-vacuity: good bearer -> code 0 -> join on /session/t (and via the alias path "session/t/"); the same code
    again, another topic's path, no code and a non-session prefix are refused; a token whose exp equals the
    clock is refused by the session endpoint *)
@@ -220,3 +232,12 @@ Example C01_witness_expiry :
   let h t := [OReq (mkreq (RSession "t") tok None None); OWs "/session/t" (Some 0%N) 1; OSetNow t; OTimers] in
   length (hub (reach c01_cfg 10 (h 13%Z))) = 1%nat /\ length (hub (reach c01_cfg 10 (h 14%Z))) = 0%nat.
 Proof. vm_compute. split; reflexivity. Qed.
+
+(* non-vacuity: a good session request during an entropy failure is not answered, leaves no code, and a websocket
+   attempt with any code afterwards is refused; the same request without the fault gets code 0 *)
+Example C01_witness_entropy :
+  let tok := Bearer (mkbearer SWell HS256 [] (Some 7%N) (mkclaims "t" "session" 1 ["read"] ["h"] (Some 500%Z) (Some 5%Z) (Some 5%Z))) in
+  let q := mkreq (RSession "t") tok None None in
+  snd (run c01_cfg (init 10) [OFaultedReq q; OWs "/session/t" (Some 0%N) 1; OReq q; OWs "/session/t" (Some 0%N) 2])
+    = [OutResp Panic; OutWs WRefused; OutResp (Resp 200 (BUri 0)); OutWs (WJoined (mkmember 0 "t" ["read"] 1 500 true false 2))].
+Proof. vm_compute. reflexivity. Qed.
